@@ -3,6 +3,7 @@
 import os, sys, json, struct, subprocess, math
 sys.path.insert(0, os.path.dirname(os.path.abspath(__file__)))
 from common import *
+import apigen, apicmp
 
 PROP = 'C09'
 INT_TYPES = {
@@ -331,7 +332,36 @@ def run_check(tier, seed):
             same_spec = (impl == spec)
             if not same_spec:
                 prop_fail.append((e, tags, line, impl, spec))
-        V.cov['evaluations'] = len(lines)
+        # ---- API-level stream: the same rules through the public API (dispatch in convert_swap.m4, fill substitution in
+        # put_varm, NC_ECHAR checks in dispatchers and drivers, CDF-1/2 byte/uchar exemption), compared with Spec/Dataset.lean
+        api_fail, api_lines, api_progs = 0, 0, (40 if tier == 'thorough' else 10)
+        okapi, outapi = lake_build(['apidrv'])
+        if okapi and os.path.exists(apicmp.APIDRV):
+            aexe = apicmp.build_apirun(tree, wd)
+            for k in range(api_progs):
+                pr = apigen.gen_conv_program(rng, 'c09_%d.nc' % k, 1, fmt=[1, 2, 5][k % 3])
+                text = pr.text()
+                rc, impl, spec, err = apicmp.run_both(aexe, text, 1, wd, tag='cv%d' % k)
+                api_lines += len(impl)
+                mism = apicmp.compare(spec, impl)
+                if rc != 0 or mism:
+                    def still(t):
+                        rc2, i2, s2, _ = apicmp.run_both(aexe, t, 1, wd, tag='shr')
+                        return rc2 != 0 or bool(apicmp.compare(s2, i2))
+                    small = apicmp.shrink(aexe, text, 1, wd, still, budget=40)
+                    rc3, i3, s3, e3 = apicmp.run_both(aexe, small, 1, wd, tag='shr')
+                    m3 = apicmp.compare(s3, i3)
+                    what = 'API-level conversion differs from the rules: rc=%s %s' % (rc3, '; '.join('spec[%s] impl[%s]' % (a[1], a[2]) for a in m3[:3]))
+                    if V.failing_input('C09:api', what[:600], dict(script=small, mismatches=m3[:5], rc=rc3, stderr=e3[-300:]), tag='api%d' % api_fail):
+                        api_fail += 1
+                        new_fail_api = True
+                    if api_fail >= 3:
+                        break
+        else:
+            tie_diffs.append(('apidrv does not build', outapi[-500:]))
+        V.cov['api_conversion_programs'] = api_progs
+        V.cov['api_result_lines'] = api_lines
+        V.cov['evaluations'] = len(lines) + api_lines
         V.cov['distinct_nontrivial'] = len(distinct)
         V.cov['traces_validated_against_impl'] = len(lines) - len(tie_diffs)
         V.cov['rule'] = ('every generated primitive / inlined loop element run on the compiled C and on the Lean model+spec: all values of 8-bit '
@@ -352,7 +382,7 @@ def run_check(tier, seed):
                 new_fail += 1
                 if new_fail >= 5:
                     break
-        if new_fail == 0:
+        if new_fail == 0 and api_fail == 0:
             if tie_diffs:
                 V.broken_tie('correspondence stream conv: model and implementation differ', tie_diffs[:10])
             if proof_broken:
